@@ -79,14 +79,17 @@ struct Track {
     for (unsigned i = 0; i < pubToReal.size(); ++i) pubToReal[i] = i;
     pendingAny = pendingRows = false;
   }
+  // Rows are recorded as existing only at moments where no lazy swap is pending (container index == public index, and
+  // every non-zero entry of the model is an entry linked in its row). Rows that were populated only while a swap was
+  // pending are not counted: where the implementation materialises them is not part of the interface.
   void mark_rows(const Dense& d) {
     if (!ra) return;
+    if (swaps && pendingAny) return;
     for (unsigned c : d.present_columns())
       for (unsigned r = 0; r < d.rows(); ++r)
         if (d.at(c, r)) {
-          unsigned q = pubToReal[r];
-          realExists.insert(q);
-          if (rowsSize <= q) rowsSize = q + 1;
+          realExists.insert(r);
+          if (rowsSize <= r) rowsSize = r + 1;
         }
   }
   bool row_readable(unsigned r) const {  // after the reorder has been forced (identity mapping)
@@ -672,8 +675,13 @@ class History {
       bool settle = false;
       if (setRows && a != b && ex(KF_SET_ROWS)) {
         // set rows are keyed by column index: relabelling one swapped column collides with the not yet relabelled other
-        // one in every row where both are non-zero
+        // one in every row where both are non-zero (rows taken before / after a pending row swap, so that one is
+        // applied first)
         ctx.hit(std::string("excluded:") + KF_SET_ROWS);
+        if (tr.pendingAny) {
+          ctx.desc << "  (forced read before swap_columns)\n";
+          full_check();
+        }
         for (unsigned r = 0; r < RMAX; ++r)
           if (model->at(a, r) && model->at(b, r)) return skip("set rows: swapped columns share a row");
         settle = true;
@@ -768,7 +776,10 @@ class History {
     ctx.desc << "  erase_empty_row(" << r << ")\n";
     m->erase_empty_row(r);
     if (swapsOn && mapc) tr.known.erase(r);
-    if (ra && O::has_removable_rows) tr.realExists.erase(comp ? r : tr.pubToReal[r]);
+    if (ra && O::has_removable_rows) {
+      tr.realExists.erase(r);
+      if (!comp) tr.realExists.erase(tr.pubToReal[r]);
+    }
     ctx.hit("op:erase_empty_row");
   }
 
